@@ -287,7 +287,7 @@ func (g *nmGate) VisitWorkflowPre(w *actionlint.Workflow) error {
 	}
 	select {
 	case <-g.st.calleeReg:
-	case <-time.After(20 * time.Second):
+	case <-time.After(180 * time.Second):
 		g.st.mu.Lock()
 		g.st.timeouts++
 		g.st.mu.Unlock()
